@@ -127,6 +127,23 @@ def empirical_measure(draw, n, grid=20000):
     return {k: v / grid for k, v in cnt.items()}
 
 
+def table_measure(p):
+    """law of the real TableMethod on p, stratified exactly over the low byte of the 32-bit draw (each byte value has probability
+    1/256); the residual alias sampler is measured on a fine grid of its own uniform"""
+    s = TABLE.TableMethod(np.array([float(x) for x in p]), ident)
+    J = [int(j) for j in s.J]
+    meas = {}
+    for j in J:
+        if j >= 0:
+            meas[j] = meas.get(j, 0.0) + 1.0 / 256
+    rest = sum(1 for j in J if j < 0)
+    if rest:
+        emp = empirical_measure(lambda u: int(s.alias_method._draw_with_u(u)), len(p), grid=100000)
+        for k, v in emp.items():
+            meas[k] = meas.get(k, 0.0) + v * rest / 256
+    return meas, len(J)
+
+
 def replay_vector(sc):
     p = [float(Fraction(x)) for x in sc["p"]]
     method = sc["method"]
@@ -134,6 +151,13 @@ def replay_vector(sc):
         draw = build_concrete(method, p)
     except Exception as e:
         return True, f"{method} constructor raises {type(e).__name__}: {e} on p={p}"
+    if method == "table":
+        meas, slots = table_measure(p)
+        bad = {k: (meas.get(k, 0.0), p[k]) for k in range(len(p)) if abs(meas.get(k, 0.0) - p[k]) > 1e-4}
+        bad.update({k: (v, None) for k, v in meas.items() if not (0 <= k < len(p))})
+        if slots != 256:
+            bad["slots"] = slots
+        return bool(bad), f"table on p={p}: law stratified over the 256 slots vs p (state: (measured, target)) {bad}"
     if "u" in sc and sc["u"] is not None:
         k = draw(float(Fraction(sc["u"])))
         if not (0 <= k < len(p)) or p[k] == 0:
@@ -248,7 +272,7 @@ def h_table(ctx, n, slots):
     rp = (replay_table, _scenario("table", n))
     all_integer = AND(*[EQ(256 * x, k) for x, k in zip(p, slots)])
     try:
-        tm = TABLE.TableMethod(np.array(p, dtype=object), ident)
+        tm = TABLE.TableMethod(np.array(p, dtype=object).view(shims.SymArray), ident)
     except Exception as e:
         ctx.prove("C02.table.constructor_accepts_every_probability_vector", False, info={"raised": repr(e)[:200], "slots": slots}, replay=rp,
                   regions={"all_256p_integers": all_integer})
